@@ -67,6 +67,10 @@ def run(rep, tier, seed):
     jobs = [(seed % 100000 + 2, i, {"catalogue": i, "quick": quick}) for i in range(ncat)]
     jobs += [(seed % 100000 + 2, 100 + i, {"quick": quick, "cython": (i % 12 == 0)}) for i in range(n)]
     results = mc.pool_map(dc.det_worker, jobs)
+    stiff = mc.pool_map(dc.stiff_worker, [(100.0, seed), (300.0, seed)])
+    rep.cov["stiff_instances"] = {r["name"]: {"calls": r["calls"], "refused_with_IntegrationError": r["refused"],
+                                              "returned_and_validated": r["accepted"] - r["refused"]} for r in stiff}
+    results += stiff
     acc = judge(rep, results)
     rep.assume("reference engine: scipy solve_ivp DOP853 (rtol 1e-12, atol 1e-13) on the specification's right-hand side")
     rep.assume("tolerance 1e-5 (1+max|ref|) on the odeint path (default tolerances 1.5e-8), 1e-7 (1+max|ref|) on the "
